@@ -20,7 +20,12 @@ def files_of(patch):
 
 def own_of(seed_dir):
     try:
-        return json.load(open(os.path.join(seed_dir, "meta.json"))).get("property")
+        m = json.load(open(os.path.join(seed_dir, "meta.json")))
+        prop, db = m.get("property"), json.dumps(m.get("detected_by"))
+        other = re.search(r"C\d\d", db)
+        if prop and prop + "/" not in db and other:
+            return other.group(0)      # a seed recorded as caught by another property's check (see its meta.json)
+        return prop
     except Exception:
         m = re.search(r"(C\d\d)", os.path.basename(seed_dir))
         return m.group(1) if m else None
